@@ -814,7 +814,10 @@ class NetConnections:
         inodes = {}
         for pid in pids():
             try:
-                inodes.update(self.get_proc_inodes(pid))
+                # A socket can be shared between processes (e.g. after
+                # fork()): merge instead of overwriting.
+                for inode, pairs in self.get_proc_inodes(pid).items():
+                    inodes.setdefault(inode, []).extend(pairs)
             except (FileNotFoundError, ProcessLookupError, PermissionError):
                 # os.listdir() is gonna raise a lot of access denied
                 # exceptions in case of unprivileged user; that's fine
